@@ -1496,6 +1496,11 @@ def suite_utils(rng, tier):
         ref = ref_build(kind, f)
         a = s.add("u_gen %s %s %d" % (kind, line_fields, len(ref)), op="u_gen", kind=kind, wf=True, fields=f, ref=ref)
         s.add("u_parse %s h:%s" % (kind, ref.hex()), op="u_parse", kind=kind, wf=True, fields=f, ref=ref)
+        if len(ref) <= 64:
+            # the same bytes handed to the parsers of the three other packet kinds (refused: wrong packet type)
+            for other in "CFIE":
+                if other != kind:
+                    s.add("u_parse %s h:%s" % (other, ref.hex()), op="u_parse", kind=other, wf=False, fields=None, ref=ref)
         return a
 
     # the largest descriptions: GSE length 4090..4095 for every kind and label kind, then random ones
